@@ -136,7 +136,19 @@ def run_chunk(args):
 
 
 def run_scenarios(ck, hbin, drv, lines, env, label, stats, tsan=False):
-    """returns list of failures (scenario, verdict, trace, stderr excerpt)"""
+    """returns list of failures (scenario, verdict, trace, stderr excerpt).  A first slice of the
+    scenarios is run alone: when it already yields several rejected traces the rest is skipped
+    (a broken implementation makes most scenarios hang for their full deadline)."""
+    first = lines[:96]
+    fails = run_scenarios1(ck, hbin, drv, first, env, label, stats, tsan)
+    if len(fails) >= 6 or len(lines) <= len(first):
+        if len(lines) > len(first):
+            stats["skipped_after_early_failures"] = len(lines) - len(first)
+        return fails
+    return fails + run_scenarios1(ck, hbin, drv, lines[len(first):], env, label, stats, tsan)
+
+
+def run_scenarios1(ck, hbin, drv, lines, env, label, stats, tsan=False):
     if not lines:
         return []
     n = max(1, min(NPROC, len(lines) // 4 or 1))
